@@ -383,8 +383,6 @@ func (pc *pathCheck) digestOK(dv ssa.Value, at *ssa.Call) (bool, string) {
 	if call, _ := an.CallOf(o); call != nil && call.Call.IsInvoke() && call.Call.Method.Name() == "Digest" && isNamed(call.Call.Value.Type(), digestPkg, "Digester") {
 		return true, ""
 	}
-	_, myPath := accessPath(an.Strip(dv))
-	myRoot, _ := accessPath(an.Strip(dv))
 	for _, g := range an.GuardingEdges(at.Block()) {
 		x, nilSucc, ok := an.NilTest(an.BlockIf(g.From))
 		if !ok || g.Succ != nilSucc {
@@ -398,8 +396,7 @@ func (pc *pathCheck) digestOK(dv ssa.Value, at *ssa.Call) (bool, string) {
 		if an.Origin(arg) == o {
 			return true, ""
 		}
-		r2, p2 := accessPath(an.Strip(arg))
-		if r2 == myRoot && strings.Join(p2, ".") == strings.Join(myPath, ".") && len(p2) > 0 {
+		if sameSource(arg, dv) {
 			return true, ""
 		}
 	}
